@@ -73,19 +73,35 @@ FOLD_DELEGATES = {
     "Sum::sum": ("ZERO", ["wrapping_add", "add"]), "Product::product": ("ONE", ["wrapping_mul", "mul"]),
 }
 # composite facades: expected multiset of non-plumbing local callees (by method name)
+# (names are normalised: the operator, its wrapping_ inherent and its _assign form are one operation in ruint, so
+# a rewrite between them is not a deviation; each entry lists the accepted alternatives)
 COMPOSITES = {
-    "MulAdd::mul_add": ["add", "mul"],
-    "MulAddAssign::mul_add_assign": ["add_assign", "mul_assign"],
-    "Integer::is_multiple_of": ["eq", "is_zero", "is_zero", "rem"],
-    "PrimInt::swap_bytes": ["to_be_bytes_vec", "try_from_be_slice"],
-    "PrimInt::pow": ["from", "pow"],
-    "Zeroize::zeroize@Bits": ["zeroize"],
+    "MulAdd::mul_add": [["add", "mul"]],
+    "MulAddAssign::mul_add_assign": [["add", "mul"], ["mul_add"]],
+    "Integer::is_multiple_of": [["eq", "is_zero", "is_zero", "rem"]],
+    "PrimInt::pow": [["from", "pow"]],
+    "Zeroize::zeroize@Bits": [["zeroize"]],
 }
+
+
+# composites whose inherent composition is total (wrapping operations only): a limb-level re-implementation is
+# accepted when it is total and canonical
+REIMPLEMENTABLE = {"MulAdd::mul_add", "MulAddAssign::mul_add_assign"}
+
+
+def norm_op(n):
+    if n.startswith("wrapping_"):
+        n = n[len("wrapping_"):]
+    if n.endswith("_assign"):
+        n = n[:-len("_assign")]
+    return n
 # not forwards at all: base implementations, views, identities, derives (R-CANON / other rules cover them)
 BASE_IMPLS = {
     "BitOrAssign::bitor_assign@&Uint", "BitAndAssign::bitand_assign@&Uint", "BitXorAssign::bitxor_assign@&Uint",
     "Bits::into_inner", "Bits::as_uint", "Bits::as_uint_mut", "From::from", "Zeroize::zeroize@Uint",
     "PrimInt::from_le", "PrimInt::to_le", "Zero::is_zero", "Bits::as_limbs",
+    # no inherent twin: the facade method is the implementation (its canonical result is R-CANON's business)
+    "PrimInt::swap_bytes",
 }
 COMMUTATIVE = {"BitAnd::bitand", "BitOr::bitor", "BitXor::bitxor", "Add::add", "Mul::mul"}
 # the delegate's boolean result selects the returned constant (Index<usize> for Bits returns &true / &false)
@@ -275,11 +291,40 @@ def run(ctx, config="all"):
                     fk, init, "|".join(fns), sorted(sl.consts), fn_items, folds))
             continue
         if variant in COMPOSITES or fk in COMPOSITES:
-            want = sorted(COMPOSITES.get(variant, COMPOSITES.get(fk)))
-            if names == want:
-                rep.ok(key, where, "composite of %s" % want)
+            want = [sorted(w) for w in COMPOSITES.get(variant, COMPOSITES.get(fk))]
+            got = sorted(norm_op(n) for n in names)
+            if got in want:
+                rep.ok(key, where, "composite of %s" % got)
+            elif fk in REIMPLEMENTABLE and any(prog.bodies[c[2]]["file"].startswith("src/algorithms") or
+                                               prog.bodies[c[2]]["name"] in ("from_limbs", "as_limbs_mut", "into_limbs")
+                                               for c in calls):
+                # not a composition of inherent operations but an implementation on limbs (e.g. a fused mul-add):
+                # the inherent composition is total and canonical, so the re-implementation must be; value agreement
+                # of a re-implementation is arithmetic and is not decided
+                from . import canon, total_rule
+                T = total_rule.totality(ctx, config)
+                bad = []
+                for cfg in ctx.cfgs():
+                    for r in T.residuals(b["key"], cfg):
+                        bad.append("reaches %s `%s` at %s in (%d,%d)" % (r.origin_kind, short(r.origin_what), r.origin_where,
+                                                                        cfg[0], cfg[1]))
+                        break
+                    if bad:
+                        break
+                if not bad:
+                    ev = canon.function_events(ctx, config, b["key"])
+                    if ev:
+                        bad.append("%s at %s in (%d,%d)" % (ev[0][0], ev[0][1], ev[0][2][0], ev[0][2][1]))
+                if bad:
+                    rep.violation(key, where, "%s is re-implemented on limbs instead of composing %s, and the "
+                                  "re-implementation %s, which the inherent composition never does" % (
+                                      fk, " or ".join(str(w) for w in want), bad[0]))
+                else:
+                    rep.ok(key, where, "re-implemented on limbs; total and canonical in every configuration (value "
+                                       "agreement of a re-implementation is not decided)")
             else:
-                rep.violation(key, where, "%s is expected to be composed of %s; calls %s" % (fk, want, names))
+                rep.violation(key, where, "%s is expected to be composed of %s; calls %s" % (
+                    fk, " or ".join(str(w) for w in want), names))
             continue
         if len(calls) != 1:
             # Shl<Uint>/Shr<Uint>: wrapping_sh*(self, amount read from rhs) -- the amount read is R-LOWLIMB's business
